@@ -59,6 +59,11 @@ pub enum Delivery {
     One(u16),
     /// several balance / order messages packed into one full account snapshot
     Packed(Vec<u16>),
+    /// the engine records a cancel request it sent for the order the selected message is about
+    /// (a no-op unless that message is an order report)
+    CancelRequested(u16),
+    /// the account (true) / market (false) connection of an exchange reports that it reconnects
+    Reconnecting { account: bool, ex: u8 },
 }
 
 #[derive(Debug, Clone, Serialize, Deserialize)]
@@ -153,7 +158,7 @@ fn held(state: &DefaultState, k: Key) -> Option<(i64, String)> {
     match k {
         Key::Balance { asset } => state.assets.asset_index(&AssetIndex(asset as usize)).balance.as_ref().map(|b| (secs(b.time), format!("{}/{}", b.value.total, b.value.free))),
         Key::Order { inst, cid } => state.instruments.instrument_index(&InstrumentIndex(inst as usize)).orders.0.get(&ClientOrderId::new(format!("c{cid}"))).and_then(|o| match &o.state {
-            ActiveOrderState::Open(open) => Some((secs(open.time_exchange), format!("{}", open.filled_quantity))),
+            ActiveOrderState::Open(open) | ActiveOrderState::CancelInFlight(barter_execution::order::state::CancelInFlight { order: Some(open) }) => Some((secs(open.time_exchange), format!("{}", open.filled_quantity))),
             _ => None,
         }),
         Key::L1 { inst } => {
@@ -204,7 +209,15 @@ impl Check for MaxTimestampWins {
         };
         (
             prop::collection::vec((key(), 1u8..6, 1u16..2000), 2..max_m),
-            prop::collection::vec(prop_oneof![6 => any::<u16>().prop_map(Delivery::One), 1 => prop::collection::vec(any::<u16>(), 1..5).prop_map(Delivery::Packed)], 1..max_d),
+            prop::collection::vec(
+                prop_oneof![
+                    12 => any::<u16>().prop_map(Delivery::One),
+                    2 => prop::collection::vec(any::<u16>(), 1..5).prop_map(Delivery::Packed),
+                    2 => any::<u16>().prop_map(Delivery::CancelRequested),
+                    1 => (any::<bool>(), 0u8..2).prop_map(|(account, ex)| Delivery::Reconnecting { account, ex }),
+                ],
+                1..max_d,
+            ),
         )
             .prop_map(|(msgs, deliveries)| StaleCase { msgs: msgs.into_iter().map(|(key, t, v)| Msg { key, t, v }).collect(), deliveries })
             .boxed()
@@ -234,6 +247,7 @@ impl Check for MaxTimestampWins {
             k
         };
         let (mut stale, mut dup, mut equal_ts, mut packed) = (0u32, 0u32, 0u32, 0u32);
+        let (mut cancels, mut reconnects, mut stale_after_cancel, mut stale_after_reconnect) = (0u32, 0u32, 0u32, 0u32);
 
         for (n, del) in case.deliveries.iter().enumerate() {
             // build the engine-level events for this delivery
@@ -248,6 +262,44 @@ impl Check for MaxTimestampWins {
                         Key::Order { .. } => events.push(AccountEvent { exchange: w.exchange_of(m.key), kind: AccountEventKind::OrderSnapshot(Snapshot(w.order(&m))) }.into()),
                         _ => events.push(w.market(&m).into()),
                     }
+                }
+                Delivery::CancelRequested(sel) => {
+                    let m = *pick(*sel);
+                    if let Key::Order { .. } = w.canon(m.key) {
+                        let o = w.order(&m);
+                        let request = barter_execution::order::request::OrderRequestCancel { key: o.key.clone(), state: barter_execution::order::request::RequestCancel { id: None } };
+                        use barter::engine::state::order::in_flight_recorder::InFlightRequestRecorder;
+                        let before: Vec<Option<(i64, String)>> = all_keys.iter().map(|k| held(&state, *k)).collect();
+                        state.record_in_flight_cancel(&request);
+                        rig.engine.state.record_in_flight_cancel(&request);
+                        cancels += 1;
+                        for (i, k) in all_keys.iter().enumerate() {
+                            let now = held(&state, *k);
+                            if now != before[i] {
+                                bad!("cancel-request-changed-held-item", "delivery {n} {del:?}: recording a cancel request changed what is held for {k:?}: {:?} -> {now:?}", before[i]);
+                            }
+                        }
+                    }
+                    continue;
+                }
+                Delivery::Reconnecting { account, ex } => {
+                    let id = indexed.exchanges()[*ex as usize % indexed.exchanges().len()].value;
+                    let before: Vec<Option<(i64, String)>> = all_keys.iter().map(|k| held(&state, *k)).collect();
+                    if *account {
+                        state.connectivity.update_from_account_reconnecting(&id);
+                        let _ = rig.engine.process(EngineEvent::Account(barter::execution::AccountStreamEvent::Reconnecting(id)));
+                    } else {
+                        state.connectivity.update_from_market_reconnecting(&id);
+                        let _ = rig.engine.process(EngineEvent::Market(barter_data::streams::consumer::MarketStreamEvent::Reconnecting(id)));
+                    }
+                    reconnects += 1;
+                    for (i, k) in all_keys.iter().enumerate() {
+                        let now = held(&state, *k);
+                        if now != before[i] {
+                            bad!("reconnect-notice-changed-held-item", "delivery {n} {del:?}: a reconnect notice changed what is held for {k:?}: {:?} -> {now:?}", before[i]);
+                        }
+                    }
+                    continue;
                 }
                 Delivery::Packed(sels) => {
                     // account items of the first item's exchange are packed; the rest go singly
@@ -300,6 +352,12 @@ impl Check for MaxTimestampWins {
                 let v = value_repr(&w, m);
                 if max_before.is_some_and(|mb| t < mb) {
                     stale += 1;
+                    if cancels > 0 && matches!(k, Key::Order { .. }) {
+                        stale_after_cancel += 1;
+                    }
+                    if reconnects > 0 {
+                        stale_after_reconnect += 1;
+                    }
                 }
                 if by_t.get(&t).is_some_and(|vs| vs.contains(&v)) {
                     dup += 1;
@@ -344,13 +402,15 @@ impl Check for MaxTimestampWins {
         rep.class_if(dup > 0, "duplicate_delivery");
         rep.class_if(equal_ts > 0, "equal_timestamp_different_value");
         rep.class_if(packed > 0, "packed_account_snapshot");
+        rep.class_if(stale_after_cancel > 0, "stale_order_report_after_cancel_request");
+        rep.class_if(stale_after_reconnect > 0, "stale_delivery_after_reconnect_notice");
         rep.nontrivial = stale > 0 && dup > 0 && equal_ts > 0;
         rep
     }
 }
 
 pub fn run(ctx: &mut Ctx) {
-    ctx.rule = "max_timestamp_wins: 1..14|24 timestamped messages over keys {2 assets' balances, 2x2 orders' partially filled open reports, 3 instruments' L1 books, 3 instruments' public trades} with timestamps from a 5-value range (equal timestamps common), delivered 1..40|90 times as a generated selection with repetition, ~15% packed into full account snapshots, through EngineState::update_from_* and Engine::process on a 2-exchange / 3-instrument state. non-trivial = >= 1 stale delivery AND >= 1 exact duplicate AND >= 1 equal-timestamp pair with different values; distinct by hash of the case.".into();
+    ctx.rule = "max_timestamp_wins: 1..14|24 timestamped messages over keys {2 assets' balances, 2x2 orders' partially filled open reports, 3 instruments' L1 books, 3 instruments' public trades} with timestamps from a 5-value range (equal timestamps common), delivered 1..40|90 times as a generated selection with repetition, ~12% packed into full account snapshots, interleaved with cancel requests recorded for tracked orders (12%) and account / market reconnect notices (6%), through EngineState::update_from_* and Engine::process on a 2-exchange / 3-instrument state. non-trivial = >= 1 stale delivery AND >= 1 exact duplicate AND >= 1 equal-timestamp pair with different values; distinct by hash of the case.".into();
     ctx.assumptions = vec![
         "OrderBookL1.last_update_time == event.time_exchange as every connector sets it; timestamps after 1970".into(),
         "messages with equal timestamps and different values: either delivered value may be held".into(),
